@@ -80,6 +80,12 @@ def tasks(tier, seed):
         ts.append({"part": "mixed", "accept": accept, "line": False, "bound": 4 if q else 6, "name": "mixed/%s/sync" % accept})
     for k in range(4):
         ts.append({"part": "mixed", "accept": "one", "line": True, "bound": 2, "shard": [k, 4, 2], "name": "mixed/one/line/%d" % k})
+    # a sender under short writes against a thread that starts the closing handshake (three ways)
+    for how in ("recv-close", "send_close", "close"):
+        for accept in ("one", "half"):
+            ts.append({"part": "closing", "how": how, "accept": accept, "line": False, "bound": 4 if q else 6, "name": "closing/%s/%s/sync" % (how, accept)})
+        for k in range(4):
+            ts.append({"part": "closing", "how": how, "accept": "half", "line": True, "bound": 2, "shard": [k, 4, 2], "name": "closing/%s/half/line/%d" % (how, k)})
     # "randomly beyond": seeded random schedules of 4 senders / 3 receivers (a sampled supplement, reported separately)
     for k in range(8):
         ts.append({"part": "random", "k": k, "seed": seed, "n": 60 if q else 1500, "bound": None, "name": "random/%d" % k})
@@ -465,6 +471,102 @@ class MixedHarness:
         return tuple(o for o, p in got_w)
 
 
+def check_write_events(sock, raised, sig):
+    """The serial-order clause judged write call by write call (sock.events names the thread of every write): whenever a thread writes,
+    no OTHER thread may have an unfinished frame on the wire; at the end an unfinished frame is tolerable only as the very last thing on
+    the wire, from a thread whose call raised (the connection went away under it)."""
+    pending = {}
+    order = []
+    last_writer = None
+    for kind, thread, val in sock.events:
+        if kind != "w" or not val:
+            continue
+        for other, buf in pending.items():
+            if other != thread and buf:
+                raise Violation(dict(sig, how="piece-then-other-frame"),
+                                "thread %s had written %d bytes of an unfinished frame (%s) when thread %s wrote %s: pieces interleave on the wire" % (
+                                    other, len(buf), bytes(buf[:6]).hex(), thread, bytes(val[:6]).hex()))
+        buf = pending.setdefault(thread, bytearray())
+        buf += val
+        frames, rest = R.decode_all(bytes(buf))
+        for f in frames:
+            probs = R.check_client_frame(f)
+            if probs:
+                raise Violation(dict(sig, how="malformed"), "thread %s wrote a malformed frame: %r" % (thread, probs))
+            order.append((thread, f.opcode, f.payload))
+        pending[thread] = bytearray(rest)
+        last_writer = thread
+    for thread, buf in pending.items():
+        if buf and thread not in raised:
+            raise Violation(dict(sig, how="unfinished-frame"), "thread %s returned normally but left %d bytes of an unfinished frame on the wire" % (thread, len(buf)))
+    return order
+
+
+class ClosingHarness:
+    """One thread sends data frames under short writes while another starts the closing handshake on the same connection: by reading the
+    server's Close frame (recv() answers it), by send_close(), or by close(). Whatever the order, the wire holds whole frames only: a data
+    frame is either absent, or complete BEFORE the Close frame follows; never a piece of it followed by the Close frame."""
+
+    def __init__(self, d):
+        self.d = d
+        self.steps = 0
+
+    def __call__(self, ch):
+        d = self.d
+        how = d["how"]
+        stream = R.encode(R.TEXT, b"x1") + R.encode(R.CLOSE, b"\x03\xe8bye") if how == "recv-close" else R.encode(R.CLOSE, b"\x03\xe8")
+        sc, sock, ws = make_conn(ch, d, stream)
+        sock.inbox.pop()
+        raised = {}
+        got = []
+        try:
+            def sender():
+                try:
+                    ws.send(b"S" * 20, lib.websocket.ABNF.OPCODE_BINARY)
+                    ws.send("t" * 9)
+                except lib.websocket.WebSocketConnectionClosedException as e:
+                    raised["sender"] = e
+                except OSError as e:
+                    raised["sender"] = e
+
+            def closer():
+                try:
+                    if how == "recv-close":
+                        got.append(ws.recv())
+                        got.append(ws.recv())
+                    elif how == "send_close":
+                        ws.send_close(1000, b"done")
+                    else:
+                        ws.close(timeout=1)
+                except lib.websocket.WebSocketConnectionClosedException as e:
+                    raised["closer"] = e
+
+            def main():
+                sc.spawn(sender, "sender")
+                sc.spawn(closer, "closer")
+            res = sc.run(main)
+        finally:
+            S.uninstall()
+        self.steps += sc.steps
+        sig = {"kind": "send-vs-close", "closing": how, "accept": d.get("accept") or "all"}
+        if res["abort"]:
+            raise Violation(dict(sig, how="deadlock"), "threads did not finish: %s" % res["abort"])
+        excs = [t.exc for t in sc.threads[1:] if t.exc is not None]
+        if excs:
+            raise Violation(dict(sig, how="exception", exc=type(excs[0]).__name__), "a thread raised %r" % (excs[0],))
+        order = check_write_events(sock, set(raised), sig)
+        closes = [o for o in order if o[1] == R.CLOSE]
+        if len(closes) != 1:
+            raise Violation(dict(sig, how="close-frames"), "%d Close frames on the wire: %r" % (len(closes), [(t, o, len(p)) for t, o, p in order]))
+        data = [(o, p) for t, o, p in order if t == "sender"]
+        allowed = [(R.BINARY, b"S" * 20), (R.TEXT, b"t" * 9)]
+        if data != allowed[:len(data)]:
+            raise Violation(dict(sig, how="data-frames"), "the sender's frames on the wire are %r" % ([(o, len(p)) for o, p in data],))
+        if len(data) < 2 and "sender" not in raised:
+            raise Violation(dict(sig, how="frame-lost"), "both send() calls returned normally but the wire carries %d of their frames" % len(data))
+        return tuple((t, o) for t, o, p in order) + (("raised",) + tuple(sorted(raised)),)
+
+
 def run_random(desc):
     from ..explore import RandomChooser, as_violation
     res = runner.new_result()
@@ -501,7 +603,7 @@ def run_task(desc):
         return run_random(desc)
     res = runner.new_result()
     part = desc["part"]
-    h = {"short": ShortHarness, "senders": SendersHarness, "receivers": ReceiversHarness, "mixed": MixedHarness, "framereceivers": FrameReceiversHarness, "appsend": AppSendHarness}[part](desc)
+    h = {"short": ShortHarness, "senders": SendersHarness, "receivers": ReceiversHarness, "mixed": MixedHarness, "framereceivers": FrameReceiversHarness, "appsend": AppSendHarness, "closing": ClosingHarness}[part](desc)
     ex = Explorer(h, bound=desc["bound"], merge=False, max_execs=600_000, max_violations=20, shard=tuple(desc["shard"]) if desc.get("shard") else None)
     ex.explore()
     runner.add_explorer(res, ex)
@@ -516,6 +618,6 @@ def run_task(desc):
 
 def replay(rep):
     d = rep["task"]
-    h = {"short": ShortHarness, "senders": SendersHarness, "receivers": ReceiversHarness, "mixed": MixedHarness, "framereceivers": FrameReceiversHarness, "appsend": AppSendHarness}[d["part"]](d)
+    h = {"short": ShortHarness, "senders": SendersHarness, "receivers": ReceiversHarness, "mixed": MixedHarness, "framereceivers": FrameReceiversHarness, "appsend": AppSendHarness, "closing": ClosingHarness}[d["part"]](d)
     out, v, ch = replay_choices(h, rep["choices"])
     return None if v is None else {"sig": v.sig, "what": v.what}
